@@ -194,7 +194,7 @@ def _describe(m):
     d = {}
     d['f'] = m.f
     d['objects'] = [dict(kind=type(g).__name__, tag=g.tag, had_tag=bool(g.had_tag), nseg=g.n_segments,
-                         taper=[getattr(g, 'segtype', 0), getattr(g, 'taper_min', None), getattr(g, 'taper_max', None)] if type(g).__name__ == 'Wire' else None,
+                         taper=([g.segtype, g.taper_min or 0, g.taper_max] if g.segtype else [0]) if type(g).__name__ == 'Wire' else None,   # limits of an untapered (or fallen-back) wire mean nothing
                          npulses=len(g.pulses)) for g in m.geo]
     d['transforms'] = [[float(k), t, [float(v) for v in x], tag] for k, t, x, tag in m.geo.transforms]
     d['scales'] = [[float(f), tag] for f, tag in m.geo.scales]
